@@ -6,16 +6,18 @@ package sse
 
 // ---------------------------------------------------------------------------
 // C19 (partial: crash freedom of the channel protocol). A send on a closed channel and a second close panic and take
-// the whole watch process down, so for the per-client event channels:
-//   - closable event: chanopen(ch) is ghost state that other goroutines change at any moment (except for a channel
-//     this activation made and has not closed); a send needs chanopen(ch), a close needs the channel to be the
-//     activation's own and the registry lock to be held;
-//   - lock invariant of Handler.m: the registry is non-nil, every channel in it is registered under its own tag and
-//     is open (so whoever holds the lock may send to a registered channel, and the client that closes its channel
-//     must have removed it first).
+// the whole watch process down. The protocol of the per-client channels:
+//   - neverclosed event: the delivery goroutines started by Send send on a client's events channel without holding
+//     any lock, possibly long after the client has gone - so no events channel is ever closed (a sweep over the package:
+//     no close of a chan event anywhere);
+//   - closable struct{}: a client's done channel is closed, by the activation that made it, once, while the
+//     registry lock is held; nobody sends on a done channel (sweep: every send on / close of a chan struct{} is in a
+//     function under contract, and needs chanopen(ch) / ownership);
+//   - lock invariant of Handler.m: the registry map is allocated; it is only touched with the lock held.
 // Not decided: that every connected client receives every event, deadlock, blocked or leaked goroutines.
-//@ closable event
-//@ lockinv Handler.m(s) protects requests: s.requests != nil && forallkey(k, s.requests, chantag(s.requests[k]) == k && chanopen(s.requests[k]))
+//@ neverclosed event
+//@ closable struct{}
+//@ lockinv Handler.m(s) protects requests: s.requests != nil
 
 //@ func (*Handler) Send [C19]
 //@   requires s != nil && s.m != nil && !held(s.m)
@@ -26,6 +28,5 @@ package sse
 //@ func (*Handler) ServeHTTP [C19]
 //@   requires s != nil && s.m != nil && !held(s.m) && r != nil && implements(w, http.Flusher)
 //@   modifies *
-//@   init before s.m.Unlock#1: chantag(events) == id
 //@   loop 1 invariant !held(s.m)
 //@   ensures !held(s.m)
